@@ -338,6 +338,7 @@ Section RP.
       (forall x, In x rm <-> Holds l x /\ keeper x = false) /\
       occupied l' + length rm = occupied l.
   Proof.
+    clear swap_le swap_ge ideal_gt rem_fin null_first owns primes num den swap.
     induction f as [|f IH]; intros l i nit pl ev Hc Hocc0 Hinv Hf; [lia|].
     cbn [sweep_loop]. destruct (Nat.leb_spec (length l) i) as [Hge|Hlt].
     - exists l, []. cbn [length pend_of reclaim_evs map rev app]. rewrite Nat.sub_0_r, app_nil_r.
@@ -365,7 +366,7 @@ Section RP.
         assert (Hke : keeper e = false) by (unfold keeper; rewrite Hm, Hr; reflexivity).
         assert (Hocc : occupied l < length l).
         { destruct Hocc0 as [Hz|]; [pose proof (at_some_lt _ _ _ _ Hat); lia|assumption]. }
-        destruct (delete_at_spec N gentry ptr swap swap_le _ l i h e Hc Hat Hocc)
+        destruct (delete_at_spec N gentry ptr _ l i h e Hc Hat Hocc)
           as [l1 [Hd [Hc1 [Hlen1 [Hh1 Ho1]]]]].
         unfold rh_delete. rewrite Hd.
         assert (Hc1' : Core l1) by (unfold Core; rewrite Hlen1; exact Hc1).
@@ -718,7 +719,7 @@ Section RP.
         * destruct Hres as [e [Hat Hpe]].
           assert (Hocc : occupied (slots g) < length (slots g)).
           { pose proof (inv_room g H) as Hroom. pose proof (inv_count g H). unfold nslots in *. lia. }
-          destruct (delete_at_spec N gentry ptr swap swap_le _ (slots g) i _ e (inv_core g H) Hat Hocc)
+          destruct (delete_at_spec N gentry ptr _ (slots g) i _ e (inv_core g H) Hat Hocc)
             as [l1 [Hd [Hc1 [Hlen1 [Hh1 Ho1]]]]].
           unfold rh_delete. rewrite Hd.
           set (g1 := set_nitems (set_slots g0 l1) (pred (nitems g))).
@@ -1086,7 +1087,7 @@ Theorem sweep_loop_exact_thm : forall hashf (l : list gslot) nit pl ev,
     occupied l' + length rm = occupied l.
 Proof.
   intros hashf l nit pl ev Hc Hroom.
-  apply (sweep_loop_ok hashf gc_swap 0%N (fun _ => []) gc_swap_le); auto; [intros; lia|lia].
+  apply (sweep_loop_ok hashf); auto; [intros; lia|lia].
 Qed.
 
 Theorem sweep_total_thm : forall hashf owns rf nf g, InvM hashf g -> Quiet g ->
